@@ -23,6 +23,9 @@ pub fn tab(plan: Plan, universe: u8, max_len: usize, probes: Vec<TProbe>, full: 
 /// Scripted deep tables (full probe windows, full load, tombstones) under a
 /// plan, then a depth-bounded search.
 fn seeded(plan: Plan, full: bool, depth: u32, tier: Tier) -> Box<dyn Config> {
+    seeded_with(plan, full, depth, vec![], tier)
+}
+pub fn seeded_with(plan: Plan, full: bool, depth: u32, probes: Vec<TProbe>, tier: Tier) -> Box<dyn Config> {
     let w = super::width();
     let (gw, fill) = if w == 16 { (16u8, 28u8) } else { (8u8, 14u8) };
     let mut c = TabCfg::new(plan, fill + 2);
@@ -30,12 +33,17 @@ fn seeded(plan: Plan, full: bool, depth: u32, tier: Tier) -> Box<dyn Config> {
     c.max_dup = 1;
     c.max_buckets = if w == 16 { 64 } else { 32 };
     c.full_alphabet = full;
-    let label = format!("{}-seeded-{}-d{}", c.label(), if full { "full" } else { "core" }, depth);
+    let tag = if probes.is_empty() { "" } else { "-probes" };
+    c.probes = probes;
+    let label = format!("{}-seeded-{}-d{}{}", c.label(), if full { "full" } else { "core" }, depth, tag);
     let lim = Limits { max_depth: Some(depth), max_wall_s: if tier == Tier::Quick { 30.0 } else { 600.0 }, ..Default::default() };
     let mut b = BfsConfig::new(label, TabHarness::new(c), lim);
     let ins = |n: u8| (0..n).map(TabOp::InsertUnique).collect::<Vec<_>>();
     let mut seeds = vec![ins(gw + 1), ins(fill)];
-    for removed in [1u8, gw / 2, fill / 2, fill - 8] {
+    let mut h = ins(gw + 1);
+    h.extend((0..gw).map(TabOp::Remove));
+    seeds.push(h);
+    for removed in [1u8, gw / 2, fill / 2, fill - 8, fill - 1, fill] {
         let mut h = ins(fill);
         h.extend((0..removed).map(TabOp::Remove));
         seeds.push(h);
